@@ -122,6 +122,7 @@ Variable L : lattice.
 Variable to_ssl to_proxy to_protocol ce re : list str.
 Variable rac : list Z.
 Variable mkdefault : retries_arg -> retry.
+Variable rc : bool.    (* release_conn() closes a connection whose response was not read to its end (a fact of the source) *)
 
 Definition C (s : string) : str := str_of_string s.
 
@@ -265,7 +266,10 @@ Definition dispose (st : pstate) (h : held) (d : disposal) : pstate :=
   | DRelease =>
       (* release_conn() with the body unread: the connection goes back as it is; the caller then drops
          the response, which closes a socket only the response still owned *)
-      if h_keepalive h then
+      if rc then
+        (* the bodies of this world are never empty: the connection is closed before it goes back *)
+        let '(st1, c1) := close_conn (unlease st c) c in put st1 (Some c1)
+      else if h_keepalive h then
         (* dropping the released response closes http.client's response object: the connection is clean again *)
         put (unlease st c) (Some (mkConn (c_id c) (c_sock c) false (match h_body h with BOk => false | _ => true end)))
       else put (close_sock (unlease st c) (c_sock c)) (Some (mkConn (c_id c) None false false))
